@@ -3,6 +3,7 @@ CONSTANTS
   Sigs = {"USR1"}
   WithExit = TRUE
   MaxH = 100
+  UniformInit = FALSE
 VIEW view
 INVARIANT Consistent
 INVARIANT EmitState
